@@ -387,7 +387,44 @@ func seqHistory(st LinStorage, blobs []LinBlob, have uint, steps int, readsOnly 
 			have &^= 1 << uint(i)
 		}
 	}
+	if sf, ok := st.(blob.SubFetcher); ok {
+		SubFetchSweep(sf, blobs, have)
+	}
 	return have
+}
+
+// SubFetchSweep performs every ranged fetch (offset 0..size+1, length 0, 1 and size+1) of every
+// blob against the reference map: exactly the requested bytes of a stored blob, clamped to its
+// end; an error for an absent blob or an offset beyond the end.
+func SubFetchSweep(sf blob.SubFetcher, blobs []LinBlob, have uint) {
+	ctx := context.Background()
+	for i := range blobs {
+		n := len(blobs[i].Data)
+		for off := 0; off <= n+1; off++ {
+			for _, length := range []int{0, 1, n + 1} {
+				rc, err := sf.SubFetch(ctx, blobs[i].Ref, int64(off), int64(length))
+				if have&(1<<uint(i)) == 0 {
+					vrt.Assert(err != nil, "a ranged fetch of an absent blob fails")
+					continue
+				}
+				if off > n {
+					vrt.Assert(err != nil, "a ranged fetch starting beyond the blob's end fails")
+					continue
+				}
+				vrt.Assert(err == nil, "a ranged fetch within a stored blob succeeds")
+				if err != nil {
+					continue
+				}
+				data, rerr := io.ReadAll(rc)
+				rc.Close()
+				end := off + length
+				if end > n {
+					end = n
+				}
+				vrt.Assert(rerr == nil && string(data) == blobs[i].Data[off:end], "a ranged fetch returns exactly the requested bytes, clamped to the blob's end")
+			}
+		}
+	}
 }
 
 // SmallBlobs returns n blobs with distinct small test refs in ascending order.
